@@ -228,7 +228,7 @@ func (h *admitH) Op(f []string) string {
 			return "bad-op"
 		}
 		opts := []grpc.ServerOption{grpc.MaxConcurrentStreams(uint32(atou(f[1])))}
-		if v, ok := kv(f, "mhl"); ok {
+		if v, ok := quotaKV(f, "mhl"); ok {
 			opts = append(opts, grpc.MaxHeaderListSize(uint32(atou(v))))
 		}
 		h.srv = grpc.NewServer(opts...)
